@@ -5,6 +5,8 @@ import SfntV.Model.OtlGsub
 import SfntV.Model.OtlGpos
 import SfntV.Model.OtlFeatureList
 import SfntV.Model.OtlGdef
+import SfntV.Model.OtlScriptList
+import SfntV.Model.OtlGtab
 
 namespace SfntV.Drive.Otl
 open SfntV SfntV.Otl
@@ -376,6 +378,57 @@ def showGdef (r : Gdef.Read) : String :=
     | none => "-"
   s!"gc={cls r.gc};mac={cls r.mac};sets={sets}"
 
+/-! script lists: `scripthex:langhex|-:required:o.o.o|-` -/
+
+def parseSL (s : String) : Option (List SL.Entry) :=
+  if s.isEmpty then some [] else
+  (s.splitOn ",").mapM fun t =>
+    match t.splitOn ":" with
+    | [sc, lg, rq, op] => do
+      let script ← fromHex sc
+      let lang ← if lg == "-" then some [] else fromHex lg
+      let req ← rq.toNat?
+      let opt ← if op == "-" then some [] else (op.splitOn ".").mapM String.toNat?
+      pure ⟨script, lang, req, opt⟩
+    | _ => none
+
+/-- Go map semantics: the last entry stored for a tag pair wins; printed sorted by (script, lang) -/
+def canonSL (es : List SL.Entry) : List SL.Entry :=
+  let dedup := es.foldl (fun acc e => (acc.filter fun q => !(q.script == e.script && q.lang == e.lang)) ++ [e]) []
+  dedup.mergeSort fun a b => SL.tagLt a.script b.script || (a.script == b.script && SL.tagLe a.lang b.lang)
+
+def showSL (es : List SL.Entry) : String :=
+  ",".intercalate ((canonSL es).map fun e =>
+    toHex e.script ++ ":" ++ (if e.lang.isEmpty then "-" else toHex e.lang) ++ s!":{e.required}:" ++
+    (if e.optional.isEmpty then "-" else ".".intercalate (e.optional.map toString)))
+
+/-! GSUB/GPOS table: the three lists in their own case-line syntaxes, `nil` for a nil list -/
+
+def optList {α} (s : Option String) (parse : String → Option α) : Option (Option α) :=
+  match s with
+  | none => none
+  | some "nil" => some none
+  | some t => (parse t).map some
+
+def encPart {α} (x : Option α) (enc : α → Outcome Bytes) : Outcome (Option Bytes) :=
+  match x with
+  | none => .ok none
+  | some v =>
+    match enc v with
+    | .ok b => .ok (some b)
+    | .err e => .err e
+    | .panic s => .panic s
+
+def showGtab (i : Gtab.Info) : String :=
+  let fl := match i.features with
+    | some f => showFL f
+    | none => "nil"
+  let ll := match i.lookups with
+    | some ls => "^".intercalate (ls.map fun (l : LL.ReadLookup Gsub.Sub) =>
+        s!"{l.type}/{l.flags}/{l.mfs}/" ++ "&".intercalate (l.subs.map showSub))
+    | none => "nil"
+  s!"sl={showSL i.scripts};fl={fl};ll={ll}"
+
 def prefixes : List String := ["otl."]
 
 def handle (op : String) (fs : List (String × String)) : String :=
@@ -462,8 +515,8 @@ def handle (op : String) (fs : List (String × String)) : String :=
   else if op == "otl.ll.read" then
     match (getField fs "data").bind fromHex, (getField fs "ext").bind String.toNat? with
     | some d, some ext =>
-      showOutcome (fun ls => ";".intercalate (ls.map fun (l : LL.ReadLookup) =>
-        s!"{l.type}/{l.flags}/{l.mfs}/" ++ "|".intercalate (l.subPos.map toString))) (LL.readLL d ext)
+      showOutcome (fun ls => ";".intercalate (ls.map fun (l : LL.ReadLookup Nat) =>
+        s!"{l.type}/{l.flags}/{l.mfs}/" ++ "|".intercalate (l.subs.map toString))) (LL.readLL d ext)
     | _, _ => "bad-case"
   else if op == "otl.gdef.encode" then
     match parseClassField (getField fs "gc"), parseClassField (getField fs "mac"),
@@ -473,6 +526,26 @@ def handle (op : String) (fs : List (String × String)) : String :=
   else if op == "otl.gdef.read" then
     match (getField fs "data").bind fromHex with
     | some d => showOutcome showGdef (Gdef.read d)
+    | none => "bad-case"
+  else if op == "otl.gtab.encode" then
+    match optList (getField fs "sl") parseSL, optList (getField fs "fl") parseFL,
+        optList (getField fs "ll") parseLL with
+    | some sl, some fl, some ll =>
+      match encPart sl SL.encode, encPart fl FL.encode, encPart ll LL.encode with
+      | .ok s, .ok f, .ok l => showOutcome showBytes (Gtab.encode s f l)
+      | _, _, _ => "panic"
+    | _, _, _ => "bad-case"
+  else if op == "otl.gtab.read" then
+    match (getField fs "data").bind fromHex with
+    | some d => showOutcome showGtab (Gtab.readGsub d)
+    | none => "bad-case"
+  else if op == "otl.sl.encode" then
+    match (getField fs "sl").bind parseSL with
+    | some es => showOutcome showBytes (SL.encode es)
+    | none => "bad-case"
+  else if op == "otl.sl.read" then
+    match (getField fs "data").bind fromHex with
+    | some d => showOutcome showSL (SL.read d)
     | none => "bad-case"
   else if op == "otl.fl.encode" then
     match (getField fs "fl").bind parseFL with
